@@ -38,7 +38,7 @@ CHECKS = {
     "C20": dict(
         engine="gridmc",
         technique="exhaustive enumeration of every lattice kind, side-length tuple and site within bounds; graph invariants and pytree/jit round trips checked on each",
-        text="Chains 2..8 (32 thorough), rectangular and triangular grids (periodic and open) for every ordered side pair in 2..6 (10), cubic grids for every side triple in 2..4 (6): constructibility, site numbering bijection, neighbour symmetry/irreflexivity, adjacency symmetry/regularity/degree bound, equality/hash, flatten-unflatten and a real jit boundary preserving every dataclass field and the adjacency matrix.",
+        text="Chains 2..33 (65 thorough), rectangular and triangular grids (periodic and open) for every ordered side pair in 2..6 (10) plus long thin shapes k x {2,3} / {2,3} x k up to k = 17 (33), cubic grids for every side triple in 2..4 (6) plus k x 2 x 2 in every orientation up to k = 12 (17): constructibility, site numbering bijection, neighbour symmetry/irreflexivity, adjacency symmetry/regularity/degree bound, equality/hash, flatten-unflatten and a real jit boundary preserving every dataclass field and the adjacency matrix.",
         note="open triangular lattices with an odd number of rows are counted but not judged (outside the property's parenthesis); default hop_signs/coord_num.",
         design="2/C20"),
     "C05": dict(
@@ -99,7 +99,7 @@ CHECKS = {
         engine="gridmc",
         technique="exhaustive enumeration of trial kinds x sizes x containers x column scalings x walker product grids for the QR contract and measurement invariance; initial-walker generator over a finite alphabet of spin-breaking angles, density matrices and flags against the Fock model",
         text="For every trial kind, container and badly scaled column pattern the returned Q is orthonormal, spans the same space, Q^H W is triangular with the returned factor, overlap(W) = overlap(Q) x factors and energy / force bias are unchanged, through qr_vmap(_uhf) and orthonormalize_walkers/_orthogonalize_walkers of every propagator class; get_init_walkers for every kind x restricted flag x rdm1 source x spin-breaking angle (incl. pi/2-1e-4 and pi/2) must return orthonormal walkers of the right shape with overlap bounded away from zero or raise, and reproduce the variational energy for single determinants.",
-        note="walker grids capped (256/243 points quick, 1024/729 thorough); energy invariance at 1e-9 / 2e-5 (complex64 kinds) / 6e-6..3e-5 (finite-difference kinds). Initial-walker call histories on one caller-owned wave_data (since seeded round 3).",
+        note="walker grids capped (256/243 points quick, 1024/729 thorough); energy invariance at 1e-9 / 2e-5 (complex64 kinds) / 6e-6..3e-5 (finite-difference kinds). Initial-walker call histories on one caller-owned wave_data (since seeded round 3). Walker count as an axis: every batch size 1..264 (1..520 thorough) contiguously through qr_vmap / qr_vmap_uhf, oracle per walker (since seeded round 6).",
         design="2/C13"),
     "C15": dict(
         engine="gridmc+seqmc",
